@@ -4,7 +4,7 @@ import json, os
 V = os.path.dirname(os.path.dirname(os.path.abspath(__file__)))
 
 CHECKS = {
- "C01": dict(engine="native", level="exploration", ref="DESIGN.md §5 C01",
+ "C01": dict(engine="native+sim", level="exploration", ref="DESIGN.md §5 C01",
    technique="runtime monitoring: real installs on synthetic targets at swept addresses in crash-isolated child processes; behavioural oracle (unique fake id) + independent x86 interpreter over live memory; interposed mmap/mprotect log",
    text="Every explored placement (address region, page offset incl. page-straddling entries, pinned trampoline page, byte-granular fake displacement around +/-2^31, flavour) was really installed and called from 4 threads; each call returned the fake's unique id and an independent decoder followed the entry bytes to exactly the fake. Sampling of an infinite address space: held on the executions observed, not proved.",
    note="Linux x86-64 branch only; kernel honours free mmap hints; interpreter knows the listed jump idioms (unknown encodings are inconclusive)"),
@@ -60,6 +60,18 @@ CHECKS = {
    technique="runtime monitoring: hand-written poll-counting executor (first-poll readiness is observed, not inferred), side-effect counters in original bodies, counter-drawing value expressions for freshness, reference model over seeded fake/await/re-fake/drop histories, 4 executor threads",
    text="In thousands of histories over 10 async function shapes every faked await was Ready on its first poll with a freshly evaluated value and without running the body; every un-faked function (incl. same-output siblings) behaved originally with its original poll count; all were original again after the drop.",
    note="x86-64 Linux"),
+ "C08": dict(engine="arms", level="exploration", ref="DESIGN.md §5 C08",
+   technique="runtime monitoring per macro arm: the arms of macro_rules! fake are parsed from the source at check time, one generated program per arm is compiled (rustc's verdict is an observation) and driven through common call runs; event-logging when/assign/returns expressions produce a trace that is compared line by line with an independently written reference model; SIGABRT observed for non-unwinding ABIs",
+   text="Every arm found in the current source (52) was instantiated, compiled and run: all compile, and each arm's event trace over 9-11 call runs (matching / non-matching calls, budget reached and exceeded, zero calls, two lifetimes) equals the reference model of the common meaning. Exhaustive over arms; one argument shape per arm in quick, three shapes and three budgets in thorough.",
+   note="arms with unrecognised matchers are inconclusive; instantiation shapes are a sample of all well-typed uses"),
+ "C15": dict(engine="sim", level="exploration", ref="DESIGN.md §5 C15",
+   technique="runtime monitoring of the real emitter in simulation: unmodified patch_arm64.rs/arm64_codegenerator.rs/utils.rs compiled on the host against a simulated memory (Linux and macOS variants, dev and release); independent A64 interpreter executes the bytes written; llvm-mc cross-check of every distinct instruction word",
+   text="Over ~1.4 million (quick) emitter invocations - every 16-bit value in every chunk position of the fake address, all word-aligned displacements around -128 MiB/0/+128 MiB, powers of two to 4 GiB, random inside/outside, macOS page-carry grid - the interpreter arrived at exactly the fake through the trampoline writing only x9-x17 (x0 for booleans), and every displacement a B cannot express was refused without touching the entry.",
+   note="no AArch64 execution here; silicon behaviour per the Arm ARM is trusted; decoder cross-checked against LLVM"),
+ "C16": dict(engine="sim", level="exploration", ref="DESIGN.md §5 C16",
+   technique="runtime monitoring of the real emitter in simulation: unmodified patch_arm.rs compiled on the host against a simulated memory; independent A32/T32 interpreters (Align(PC,4) literal rule, interworking BX); saved-bytes bookkeeping checked against the write made; llvm-mc cross-check",
+   text="For the three entry cases x boundary and random 32-bit addresses x both fake states the word the literal load reads is the fake's address (Thumb bit included), the BX interworks to it and the guard covers exactly the 12 written bytes; the A32 sequence writes only r12. The Thumb sequence writes callee-saved r7: listed in KNOWN_FINDINGS.txt (not repairable/testable without ARM hardware here).",
+   note="no ARM execution here; r9 treated as callee-saved per the Linux EABI"),
 }
 NOT_YET = {}
 
@@ -95,7 +107,9 @@ def main():
             "add_only": True,
         },
         "engines": [
-            {"name": "native", "path": "harness/native", "serves_properties": sorted(k for k, v in CHECKS.items() if "native" in v["engine"]), "kind_free_text": "Rust executable linking /repo's injectorpp; interposes mmap/munmap/mprotect/__clear_cache, shapes the address space, snapshots executable memory, interprets x86 jump idioms; run in crash-isolated children by ./check"},
+            {"name": "native", "path": "harness/native", "serves_properties": sorted(k for k, v in CHECKS.items() if "native" in v["engine"]), "kind_free_text": "Rust executable linking /repo's injectorpp; interposes mmap/munmap/mprotect/__clear_cache, shapes the address space, snapshots executable memory, interprets x86 jump idioms, assembly register probes, poll-counting executor; run in crash-isolated children by ./check"},
+            {"name": "sim", "path": "harness/sim", "serves_properties": ["C01", "C15", "C16"], "kind_free_text": "generated at check time: the unmodified emitter sources of /repo compiled on the host against a shim of injector_core::common over a simulated memory; A64, A32/T32 and x86 interpreters; llvm-mc cross-check"},
+            {"name": "arms", "path": "lib/armsgen.py", "serves_properties": ["C08"], "kind_free_text": "parses macro_rules! fake at check time, generates and compiles one program per arm, drives them and compares traces with a reference model"},
         ],
         "checks": checks,
         "not_applicable": na,
